@@ -141,7 +141,7 @@ def get_spectra(time_series, method=None):
         mdict = method.copy()
         func = eval(mdict.pop('this_method'))
         freqs, fxy = func(time_series, **mdict)
-        f = utils.circle_to_hz(freqs, mdict.get('Fs', 2 * np.pi))
+        f = freqs  # already in the units of Fs
 
     else:
         raise ValueError("Unknown method provided")
